@@ -3,12 +3,9 @@ package c19
 import "testing"
 
 func TestRigSmoke(t *testing.T) {
-	r := newRig(rigOpts{n: 4, height: 3, rootH: 3})
-	for i := 0; i < 8; i++ {
-		r.stepAll()
-	}
-	for _, l := range r.trace() {
+	res := runScenario(scenarios[4], -1, nil, nil, false)
+	for _, l := range res.trace {
 		t.Log(l)
 	}
-	t.Logf("committed=%d sent=%d", r.committed(), len(r.sent))
+	t.Logf("committed=%d sent=%d", res.commits, len(res.sent))
 }
